@@ -93,6 +93,12 @@ ValidDate(f, delta) == CASE f = "ge" -> delta >= 0 [] f = "gt" -> delta > 0 [] f
 DateCases == {[group |-> "date", ty |-> "DateTime", facet |-> f, delta |-> d, off |-> o, valid |-> ValidDate(f, d)] :
                 f \in DateFacets, d \in {0 - 90, 0 - 30, 0 - 1, 0, 1, 30, 90}, o \in {0, 60, 0 - 60, 330}}
 
+\* a type that declares the zone its zone-less values are in (as_timezone = UTC+02:00): a literal WITHOUT a zone designator is
+\* wall-clock time in that zone - the probe is written as B + 120 min + delta without designator ("local"), or as the same
+\* instant with the designator Z ("z"); the facet is judged on the instant either way
+ZoneCases == {[group |-> "zone", ty |-> "DateTime", facet |-> f, delta |-> d, how |-> h, valid |-> ValidDate(f, d)] :
+                f \in {"ge", "gt", "le", "lt"}, d \in {0 - 150, 0 - 90, 0 - 1, 0, 1, 90, 150}, h \in {"local", "z"}}
+
 \* ------------------------------------------------- mandatory members, own and inherited
 \* Der(Bas{m: Integer, mandatory}){n: Integer, mandatory}: a value lacking either member is invalid, whichever class declared it
 InhCases == {[group |-> "inh", ty |-> "Der", omit |-> o, valid |-> o = "none"] : o \in {"none", "m", "n", "both"}}
@@ -144,7 +150,7 @@ OutCases == {[group |-> "out", ty |-> "ByteArray", facet |-> e, bytes |-> b, lit
                  <<"Double", "1e+22">>, <<"Double", "1e-07">>, <<"Double", "-0.0">>, <<"Double", "inf">>, <<"Double", "nan">>,
                  <<"Integer", "123456789012345678901234567890">>, <<"Unicode", "lt_amp">>, <<"Unicode", "sp_lead">> }}
 
-Cases == ObjArrCases \cup NumCases \cup BigCases \cup StrCases \cup EnumCases \cup OccCases \cup NilCases \cup DateCases \cup TimeCases \cup InhCases \cup SubNameCases \cup LexCases
+Cases == ObjArrCases \cup NumCases \cup BigCases \cup StrCases \cup EnumCases \cup OccCases \cup NilCases \cup DateCases \cup ZoneCases \cup TimeCases \cup InhCases \cup SubNameCases \cup LexCases
 
 \* ---- laws of the table (anti-vacuity): every facet is effective - some probe is rejected by it
 \* alone - and admits something
